@@ -38,6 +38,20 @@ impl Rng {
             self.u8()
         }
     }
+    /// a non-zero 16-bit value as two big-endian bytes, often with one of the two bytes zero
+    pub fn nonzero_be16(&mut self) -> [u8; 2] {
+        match self.below(4) {
+            0 => [1 + self.u8() % 255, 0],
+            1 => [0, 1 + self.u8() % 255],
+            2 => *self.pick(&[[0x01, 0x00], [0x00, 0x01], [0x80, 0x00], [0xFF, 0x00], [0xFF, 0xFF], [0x00, 0x80]]),
+            _ => loop {
+                let v = [self.u8(), self.u8()];
+                if v != [0, 0] {
+                    break v;
+                }
+            },
+        }
+    }
     pub fn u8(&mut self) -> u8 {
         self.next() as u8
     }
